@@ -400,6 +400,13 @@ func runC11(c *Ctx) {
 				c.Pred("tamper", "truncated-mac-rejected", fmt.Sprintf("mac-octets=%d of %d %s", k, full, in), err != nil, "accepted", "rejected", true)
 			}
 		}
+		// (d3) the fudge on the wire set to 0: the MAC was computed over the fudge that was signed, and 0 is no spelling of it
+		if fp := len(out2) - (2 + len(f.mac) + 2 + 2 + 2 + len(f.other)) - 2; fp > 12 && f.fudge != 0 && be16(out2, fp) == int(f.fudge) {
+			t2 := append([]byte{}, out2...)
+			t2[fp], t2[fp+1] = 0, 0
+			err := dns.VerifTsigVerify(t2, secB64, reqMAC, timers, uint64(ts))
+			c.Pred("tamper", "wire-fudge-zero-rejected", fmt.Sprintf("fudge=%d %s", f.fudge, in), err != nil, "accepted", "rejected", true)
+		}
 		// (e) single-bit alterations (all bits of small messages, sampled for larger ones)
 		if len(out2) < 200 || i%10 == 0 {
 			step := 1
